@@ -161,10 +161,15 @@ def render_top(backend: str, q: Dict[str, Any], md: Optional[List[Dict[str, Any]
 # ---------------------------------------------------------------- generation
 
 NUM = ("int", "double")
+SHADOW_PCT = 27  # per cent of the generated queries in which the shadowing pass is attempted (see Gen.shadow_pass)
 
 
 class Gen:
-    def __init__(self, rng, backend: str, allow_first=True, allow_minmax=False, allow_fn=True, max_depth=3, strict=True, guard_w=1):
+    def __init__(self, rng, backend: str, allow_first=True, allow_minmax=False, allow_fn=True, max_depth=3, strict=True, guard_w=1, shadow=SHADOW_PCT):
+        self.shadow = shadow  # per cent of the queries in which the shadowing pass is attempted (decided by the query's own text)
+        self.sites: List[Tuple[Dict[str, Any], str, Any, str]] = []  # numeric expressions in the scope of an object parameter: (node, parameter, its type, type of the node)
+        self.shadowed = 0  # number of parameters the pass renamed in the last query
+        self.shadowed_strong = 0  # ... of them with the outer parameter used afterwards as a plain name
         self.guard_w = guard_w  # weight of the guarded-First idioms (Count()>0 guards in if-else / and / or)
         self.rng = rng
         self.backend = backend
@@ -322,7 +327,7 @@ class Gen:
         # an unconsumed projection must fail is not fixed by the property, so indexes are generated in row columns only.
         self.in_lam = getattr(self, "in_lam", 0) + 1
         try:
-            return self.dep(self.scalar(env + [(x, et)], depth, ty), x, et, ty)
+            return self._site(self.dep(self.scalar(env + [(x, et)], depth, ty), x, et, ty), env + [(x, et)], ty)
         finally:
             self.in_lam -= 1
 
@@ -600,12 +605,137 @@ class Gen:
             return {"k": k, "s": s}
         return self.leaf(env, ty)
 
+    # ---- shadowing: nested lambdas that re-use the name of an enclosing parameter
+    def _site(self, node, env, ty):
+        """remember a numeric expression generated in the scope of an object-valued parameter (the innermost one)"""
+        objs = self.objs_in(env)
+        if ty in NUM and objs and isinstance(node, dict):
+            self.sites.append((node, objs[-1][0], objs[-1][1], ty))
+        return node
+
+    def shadow_pass(self, q):
+        """In a fixed share of the queries (decided by the query's own text: no draw from the generator's random
+        stream) a nested lambda gets the NAME of an enclosing lambda's parameter, where the enclosing body goes on
+        using its parameter after the nested lambda was applied:
+            lambda j: j.kids().Select(lambda j: j.d()).Sum() + j.d()
+        Names are all the translator has to tell the two apart. In this order: (1) rename the parameter of a nested
+        lambda that is there already (never changes what the query means: the inner body does not mention the outer
+        parameter); (2) first append a use of the outer parameter to a numeric outer body (`… + j.d()`), then (1);
+        (3) graft a small aggregate with a shadowing lambda, followed by a use of the outer parameter, onto a numeric
+        expression in the scope of an object parameter; (4) rename where the later use is one the translator never
+        sees as a name (event parameter, in-lined step). In place; returns q."""
+        import random as _random
+        import zlib
+
+        self.shadowed = self.shadowed_strong = 0
+        h = zlib.crc32(json.dumps(q, sort_keys=True).encode())
+        if h % 100 >= self.shadow:
+            return q
+        r = _random.Random(h)
+        for _ in range(r.choice([1, 1, 2])):
+            cs = shadow_candidates(q, self.strict)
+            strong = [c for c in cs if c[4] and free_in(c[2]["f"], c[2]["x"])]
+            if not strong and self._append_use(q, cs, r):
+                cs = shadow_candidates(q, self.strict)
+                strong = [c for c in cs if c[4] and free_in(c[2]["f"], c[2]["x"])]
+            if not strong and self._graft(q, r):
+                continue
+            pool = strong if strong and r.random() < 0.9 else [c for c in cs if c[3]]
+            if not pool:
+                break
+            out, x, n, _, st = r.choice(pool)
+            if shadow_rename(q, n, x):
+                self.shadowed += 1
+                self.shadowed_strong += 1 if st else 0
+        return q
+
+    def _live_sites(self, q):
+        live = set()
+
+        def walk(n):
+            if isinstance(n, dict):
+                live.add(id(n))
+                for v in n.values():
+                    walk(v)
+            elif isinstance(n, list):
+                for v in n:
+                    walk(v)
+
+        walk(q)
+        binder = {}
+        for b in binders_in(q):
+            for v in bound_vars(b):
+                binder.setdefault(v, []).append(b)
+        inl = inlined_steps(q)
+        res = []
+        for node, z, et, ty in self.sites:
+            bs = binder.get(z, [])
+            if id(node) not in live or len(bs) != 1 or not (isinstance(et, tuple) and et[0] == "obj"):
+                continue
+            if (self.strict and bs[0].get("k") == "Where") or id(bs[0]) in inl or not _inside(bs[0]["f"], node):
+                continue
+            res.append((node, z, et, ty, bs[0]))
+        return res
+
+    def _append_use(self, q, cands, r) -> bool:
+        """make one generated lambda with a numeric body use its parameter once more, at the end of its body"""
+        outs = {id(out["f"]): x for out, x, _, _, _ in cands if out.get("k") == "Select"}
+        opts = [(node, z, ty) for node, z, et, ty, b in self._live_sites(q) if outs.get(id(node)) == z]
+        if not opts:
+            return False
+        node, z, ty = r.choice(opts)
+        old = dict(node)
+        node.clear()
+        node.update({"k": "bin", "op": r.choice(["+", "-", "*"]), "a": old, "b": self._leaf_of(z, ty, r)})
+        return True
+
+    def _leaf_of(self, z, ty, r):
+        return {"k": "meth", "o": {"k": "var", "n": z}, "n": r.choice(["i", "j"]) if ty == "int" else r.choice(["i", "d", "g", "f"])}
+
+    def _graft(self, q, r) -> bool:
+        """node  ~>  ((node op AGG) op z.m())  where AGG is an aggregate over z's own sub-collection whose lambda is
+        called z as well"""
+        opts = self._live_sites(q)
+        if not opts:
+            return False
+        node, z, et, ty, _ = r.choice(opts)
+        V = lambda: {"k": "var", "n": z}
+        forms = ["count_b", "count_i", "count_vs"] + ([] if ty == "int" else ["sum_kids", "sum_kids", "sum_vs", "first_guarded"])
+        form = r.choice(forms)
+        if form == "count_b":
+            agg = {"k": "Count", "s": {"k": "Where", "s": {"k": "meth", "o": V(), "n": "kids"}, "x": z, "f": {"k": "meth", "o": V(), "n": "b"}}}
+        elif form == "count_i":
+            agg = {"k": "Count", "s": {"k": "Where", "s": {"k": "meth", "o": V(), "n": "kids"}, "x": z, "f": {"k": "cmp", "op": r.choice([">", "<", ">="]), "a": {"k": "meth", "o": V(), "n": r.choice(["i", "d"])}, "b": {"k": "int", "v": r.choice([0, 1, 2])}}}}
+        elif form == "count_vs":
+            agg = {"k": "Count", "s": {"k": "Where", "s": {"k": "meth", "o": V(), "n": "vs"}, "x": z, "f": {"k": "cmp", "op": r.choice([">", "<"]), "a": V(), "b": {"k": "dbl", "v": r.choice(["0.5", "1.5"])}}}}
+        elif form == "sum_kids":
+            agg = {"k": "Sum", "s": {"k": "Select", "s": {"k": "meth", "o": V(), "n": "kids"}, "x": z, "f": {"k": "meth", "o": V(), "n": r.choice(["d", "g", "i"])}}}
+        elif form == "sum_vs":
+            agg = {"k": "Sum", "s": {"k": "Select", "s": {"k": "meth", "o": V(), "n": "vs"}, "x": z, "f": {"k": "bin", "op": "*", "a": V(), "b": {"k": "int", "v": 2}}}}
+        else:
+            import copy
+
+            s = {"k": "Select", "s": {"k": "meth", "o": V(), "n": "kids"}, "x": z, "f": {"k": "meth", "o": V(), "n": r.choice(["d", "g"])}}
+            agg = {"k": "if", "c": {"k": "cmp", "op": ">", "a": {"k": "Count", "s": copy.deepcopy(s)}, "b": {"k": "int", "v": 0}}, "a": {"k": "First", "s": s}, "b": {"k": "dbl", "v": "0.5"}}
+        old = dict(node)
+        new = {"k": "bin", "op": r.choice(["+", "-", "*"]), "a": {"k": "bin", "op": r.choice(["+", "-"]), "a": old, "b": agg}, "b": self._leaf_of(z, ty, r)}
+        node.clear()
+        node.update(new)
+        if not scopes_plain(q):
+            node.clear()
+            node.update(old)
+            return False
+        self.shadowed += 1
+        self.shadowed_strong += 1
+        return True
+
     # ---- columns and tops
     def column(self, env, depth):
         r = self.rng
         c = r.choice(["scalar"] * 3 + ["seq"] * 2 + ["seqseq"])
         if c == "scalar":
-            return self.scalar(env, depth, r.choice(["int", "double", "double", "bool"])), 0
+            t = r.choice(["int", "double", "double", "bool"])
+            return self._site(self.scalar(env, depth, t), env, t), 0
         if c == "seq":
             s, et = self.seq(env, depth, "scalar")
             if self.strict and s.get("k") == "meth" and not isinstance(et, tuple):
@@ -647,7 +777,8 @@ class Gen:
             if allow_seq:
                 cols.append(self.column(env, depth)[0])
             else:
-                cols.append(self.scalar(env, depth, r.choice(["int", "double", "double", "bool"])))
+                t = r.choice(["int", "double", "double", "bool"])
+                cols.append(self._site(self.scalar(env, depth, t), env, t))
         if shape == "single":
             return cols[0], ["col1"]
         if shape == "tuple":
@@ -658,6 +789,14 @@ class Gen:
         return {"k": "dict", "ks": ks, "es": cols}, ks
 
     def top_first_mix(self):
+        q, names, form = self._top_first_mix()
+        return self.shadow_pass(q), names, form
+
+    def top(self):
+        q, names, form = self._top()
+        return self.shadow_pass(q), names, form
+
+    def _top_first_mix(self):
         """event-level row mixing vector columns with an (unguarded) First column: on an event where the
         First's sequence is empty the job must fail, not skip the event with half-built columns"""
         r = self.rng
@@ -668,20 +807,20 @@ class Gen:
         for _ in range(r.randint(1, 2)):
             s, et = self.seq(env, d, "num")
             if et not in NUM:
-                return self.top()
+                return self._top()
             if self.strict and s.get("k") == "meth":
                 x = self.fresh()
                 s = {"k": "Select", "s": s, "x": x, "f": {"k": "bin", "op": "*", "a": {"k": "var", "n": x}, "b": {"k": "int", "v": 2}}}
             cols.append(s)
         s2, et2 = self.seq(env, d, "num")
         if et2 not in NUM:
-            return self.top()
+            return self._top()
         self.op("First")
         cols.append({"k": "First", "s": s2})
         r.shuffle(cols)
         return {"k": "Select", "s": {"k": "ds"}, "x": e, "f": {"k": "tuple", "es": cols}}, [f"col{i}" for i in range(len(cols))], "select"
 
-    def top(self):
+    def _top(self):
         r = self.rng
         d = r.randint(1, self.max_depth)
         form = r.choice(["select", "select", "select", "where_select", "selectmany", "selectmany", "selectmany_where", "two_step", "selectmany2", "two_step_tuple"])
@@ -852,12 +991,186 @@ def ops_used(q: Any, acc: Optional[Dict[str, int]] = None) -> Dict[str, int]:
     return acc
 
 
-def _uses_var(q: Any, x: str) -> bool:
+# ---------------------------------------------------------------- variables, scopes, shadowing
+
+BINDERS = ("Select", "Where", "SelectMany")
+# the order in which the parts of a node are evaluated / translated (source before the lambda's body, test before arms)
+VISIT_ORDER = ("o", "e", "s", "seed", "c", "a", "b", "es", "args", "f")
+
+
+def bound_vars(n: Dict[str, Any]) -> List[str]:
+    """the parameters the node binds in its body `f` (and only there: `s` and `seed` are outside their scope)"""
+    k = n.get("k")
+    if k in BINDERS and "x" in n:
+        return [n["x"]]
+    if k == "Aggregate":
+        return [n["acc"], n["x"]]
+    return []
+
+
+def free_in(q: Any, x: str) -> bool:
+    """x occurs FREE in q: an occurrence inside the body of a nested lambda that re-binds the name x denotes that
+    lambda's own parameter, not x"""
     if isinstance(q, dict):
-        return (q.get("k") == "var" and q.get("n") == x) or any(_uses_var(v, x) for v in q.values())
+        if q.get("k") == "var":
+            return q.get("n") == x
+        bv = bound_vars(q)
+        for key, v in q.items():
+            if key == "f" and x in bv:
+                continue
+            if free_in(v, x):
+                return True
+        return False
     if isinstance(q, list):
-        return any(_uses_var(v, x) for v in q)
+        return any(free_in(v, x) for v in q)
     return False
+
+
+def _occurs(q: Any, x: str) -> bool:
+    """the name x is written somewhere in q (bound or free)"""
+    if isinstance(q, dict):
+        return (q.get("k") == "var" and q.get("n") == x) or any(_occurs(v, x) for v in q.values())
+    if isinstance(q, list):
+        return any(_occurs(v, x) for v in q)
+    return False
+
+
+def _uses_var(q: Any, x: str) -> bool:
+    return free_in(q, x)
+
+
+def rename_free(q: Any, old: str, new: str) -> None:
+    """rename the free occurrences of `old` in q to `new` (in place)"""
+    if isinstance(q, dict):
+        if q.get("k") == "var":
+            if q.get("n") == old:
+                q["n"] = new
+            return
+        bv = bound_vars(q)
+        for key, v in q.items():
+            if key == "f" and old in bv:
+                continue
+            rename_free(v, old, new)
+    elif isinstance(q, list):
+        for v in q:
+            rename_free(v, old, new)
+
+
+def _parts(n: Dict[str, Any]) -> List[Tuple[str, Any]]:
+    keys = [k for k in VISIT_ORDER if k in n] + [k for k in n if k not in VISIT_ORDER]
+    return [(k, n[k]) for k in keys if isinstance(n[k], (dict, list))]
+
+
+def binders_in(q: Any, acc: Optional[List[Dict[str, Any]]] = None) -> List[Dict[str, Any]]:
+    acc = [] if acc is None else acc
+    if isinstance(q, dict):
+        if bound_vars(q):
+            acc.append(q)
+        for _, v in _parts(q):
+            binders_in(v, acc)
+    elif isinstance(q, list):
+        for v in q:
+            binders_in(v, acc)
+    return acc
+
+
+def scopes_plain(q: Any) -> bool:
+    """every lambda that mentions its parameter's NAME also uses the parameter (so that helpers which only look at
+    names — 'does this body ignore its element?' — stay right in the presence of shadowing), and an Aggregate's two
+    parameters differ"""
+    for b in binders_in(q):
+        for v in bound_vars(b):
+            if _occurs(b["f"], v) != free_in(b["f"], v):
+                return False
+        if b.get("k") == "Aggregate" and b["acc"] == b["x"]:
+            return False
+    return True
+
+
+def inlined_steps(q: Dict[str, Any]) -> set:
+    """ids of the top-level steps whose lambda func_adl in-lines when it composes consecutive Selects (their
+    parameter never reaches the translator as a name)"""
+    inlined = set()
+    cur = q
+    while isinstance(cur, dict) and cur.get("k") in BINDERS:
+        s = cur.get("s")
+        while isinstance(s, dict) and s.get("k") == "Where":
+            s = s.get("s")
+        if isinstance(s, dict) and s.get("k") == "Select":
+            inlined.add(id(cur))
+        cur = cur.get("s")
+    return inlined
+
+
+def _inside(tree: Any, node: Any) -> bool:
+    if tree is node:
+        return True
+    if isinstance(tree, dict):
+        return any(_inside(v, node) for v in tree.values())
+    if isinstance(tree, list):
+        return any(_inside(v, node) for v in tree)
+    return False
+
+
+def shadow_candidates(q: Dict[str, Any], strict: bool = True):
+    """(outer lambda, its parameter x, inner lambda nested in the outer body, after, strong): the inner lambda's
+    parameter can be renamed to x without changing the meaning of the query (x is not used inside the inner body).
+    after:  x is used by the outer body at a position translated AFTER the inner lambda was applied;
+    strong: ... in a position that reaches the translator as a name (not the receiver of a collection access, and
+            the outer lambda is not one that func_adl in-lines when it composes consecutive top-level Selects)."""
+    res = []
+    inlined = inlined_steps(q)
+    for out in binders_in(q):
+        if strict and out.get("k") == "Where":
+            # (finding in the func_adl LIBRARY, outside the repository under verification: Where-of-Where merges the two
+            # filters by in-lining them under the user's parameter names, and a nested lambda that re-binds such a
+            # name is substituted as well — `x.vs().Where(lambda x: x < 3.0)` inside a filter on x)
+            continue
+        for x in bound_vars(out):
+            pos = [0]
+            uses: List[Tuple[int, bool]] = []
+            inner: List[Tuple[Dict[str, Any], int]] = []
+
+            def walk(n, shadowed, weak=False):
+                if isinstance(n, dict):
+                    if n.get("k") == "var":
+                        pos[0] += 1
+                        if n.get("n") == x and not shadowed:
+                            uses.append((pos[0], weak))
+                        return
+                    bv = bound_vars(n)
+                    for key, v in _parts(n):
+                        walk(v, shadowed or (key == "f" and x in bv), n.get("k") == "coll" and key == "e")
+                    if bv and not shadowed and x not in bv:
+                        inner.append((n, pos[0]))
+                elif isinstance(n, list):
+                    for v in n:
+                        walk(v, shadowed)
+
+            walk(out["f"], False)
+            for n, end in inner:
+                if free_in(n["f"], x) or n.get("acc") == x:
+                    continue
+                after = any(u > end for u, _ in uses)
+                strong = any(u > end and not w for u, w in uses) and id(out) not in inlined
+                res.append((out, x, n, after, strong))
+    return res
+
+
+def shadow_rename(q: Dict[str, Any], inner: Dict[str, Any], x: str) -> bool:
+    """rename the parameter of the lambda `inner` (a node of q) to x, in place; undone (False) if afterwards some
+    lambda only SEEMS to use its parameter"""
+    import copy
+
+    save = copy.deepcopy(inner)
+    old = inner["x"]
+    rename_free(inner["f"], old, x)
+    inner["x"] = x
+    if not scopes_plain(q):
+        inner.clear()
+        inner.update(save)
+        return False
+    return True
 
 
 def dead_nodes(q: Any) -> set:
@@ -882,8 +1195,10 @@ def dead_nodes(q: Any) -> set:
                 return
             if n.get("k") == "var" and n.get("n") == var:
                 whole[0] = True
-            for v in n.values():
-                scan(v, var)
+            rebinds = var in bound_vars(n)  # (a nested lambda with the same parameter name: its body does not see `var`)
+            for key, v in n.items():
+                if not (rebinds and key == "f"):
+                    scan(v, var)
         elif isinstance(n, list):
             for v in n:
                 scan(v, var)
